@@ -50,6 +50,8 @@ let within (x : BQ.t) (want : BQ.t) (n : int) : bool =
 
 let parse_q s = if s = "NaN" then None else Some (BQ.of_string s)
 
+let degenerate = ref 0
+
 let compare_call (b : bus) (model : bl_result) obs : string option =
   let n = List.length (bus_msgs b) in
   match model, obs with
@@ -57,6 +59,12 @@ let compare_call (b : bus) (model : bl_result) obs : string option =
   | BLErr ErrIsZero, "ERR:zero" -> None
   | BLErr ErrIsNegative, _ -> Some "model refuses (negative default cycle time)"
   | BLErr ErrIsZero, _ -> Some "model refuses (zero default cycle time)"
+  | BLOk (_, es), _ when es <> [] && BQ.equal (List.fold_left (fun a e -> BQ.add a (bq_of_q e.e_bps)) BQ.zero es) BQ.zero ->
+    (* total rate 0 with messages present (only possible outside the property's domain, e.g. an
+       undefined bus type with empty messages): the model's shares are x / 0 = 0 by totalisation,
+       the Go code divides 0.0 by 0.0; nothing is compared, the harness reports the NaN itself
+       (theorem shares_unknown_type_refuted) *)
+    incr degenerate; None
   | BLOk (load, es), _ ->
     (match String.split_on_char ':' obs with
      | ["OK"; l; ents] ->
@@ -109,9 +117,10 @@ let () =
       incr n;
       let res =
         match String.split_on_char ';' line with
-        | ["L"; baud; defs; _builder; ifaces; obs] ->
+        | ["L"; baud; defs; builder; ifaces; obs] ->
           (try
-             let b = { b_typ = Z0; b_baud = cz baud; b_ifaces = parse_ifaces ifaces } in
+             let typ = (match String.split_on_char ',' builder with [_; t] -> cz t | _ -> Z0) in
+             let b = { b_typ = typ; b_baud = cz baud; b_ifaces = parse_ifaces ifaces } in
              let ds = List.map cz (String.split_on_char ',' defs) in
              let models = session b ds in
              let os = String.split_on_char '~' obs in
@@ -135,4 +144,5 @@ let () =
           Printf.printf "MISMATCH %d\n  case =%s\n  why  =%s\n" !n input why
         end
     done with End_of_file -> ());
+  Printf.printf "DEGENERATE-CALLS-NOT-COMPARED %d\n" !degenerate;
   Printf.printf "CASES %d MISMATCHES %d\n" !n !bad
